@@ -146,7 +146,8 @@ pub fn main(args: &[String]) -> Result<(), String> {
 // C12: garbage-producing loops under the natural collection cadence
 
 pub const GARBAGE_KINDS: &[&str] =
-    &["pairs", "vectors", "strings", "closures", "continuations", "eval", "toplevel", "symbols", "bignums", "mixed"];
+    &["pairs", "vectors", "strings", "closures", "continuations", "eval", "toplevel", "symbols", "bignums", "mixed",
+      "contchain", "delayforce", "freshlocals", "bursts"];
 
 /// (setup forms, loop form with the iteration count N substituted, per-iteration top-level form if any)
 fn garbage_program(kind: &str, live: usize, n: usize) -> (Vec<String>, Vec<String>) {
@@ -155,7 +156,16 @@ fn garbage_program(kind: &str, live: usize, n: usize) -> (Vec<String>, Vec<Strin
         "(define sink 0)".to_string(),
     ];
     let keep = match kind {
-        "pairs" | "toplevel" | "mixed" => format!("(define live (iota-list {}))", live),
+        "pairs" | "toplevel" | "mixed" | "freshlocals" | "bursts" => format!("(define live (iota-list {}))", live),
+        "contchain" => {
+            setup.push("(define last #f)".to_string());
+            setup.push("(define (remember! c) (set! last c) 0)".to_string());
+            format!("(define live (iota-list {}))", live)
+        }
+        "delayforce" => {
+            setup.push("(define (dfloop n) (if (= n 0) (delay 'end) (delay-force (dfloop (- n 1)))))".to_string());
+            format!("(define live (iota-list {}))", live)
+        }
         "vectors" => format!("(define live (map (lambda (i) (make-vector 2 i)) (iota-list {})))", live),
         "strings" => format!("(define live (map (lambda (i) (make-string 2 #\\a)) (iota-list {})))", live),
         "closures" => format!("(define live (map (lambda (i) (lambda () i)) (iota-list {})))", live),
@@ -176,11 +186,21 @@ fn garbage_program(kind: &str, live: usize, n: usize) -> (Vec<String>, Vec<Strin
         "symbols" => "(set! sink (symbol? (string->symbol (string-append \"tmp-\" (number->string i)))))",
         "bignums" => "(set! sink (> (* 100000000000000000000 (+ i 1)) 0))",
         "mixed" => "(set! sink (list (make-vector 2 i) (lambda () i) (string-append \"a\" \"b\") (call/cc (lambda (k) k))))",
+        // generator style: the receiver passes the continuation on in a non-tail call; only the newest is kept
+        "contchain" => "(set! sink (+ 1 (call/cc (lambda (c) (remember! c)))))",
+        // allocation bursts inside one instruction (bulk builtins)
+        "bursts" => "(set! sink (length (reverse (vector->list (make-vector 300 i)))))",
         _ => "",
     };
     let run = if kind == "toplevel" {
         // n successive small top-level evaluations: their code is the garbage
         vec![format!("TOPLEVEL {}", n)]
+    } else if kind == "freshlocals" {
+        // n successive top-level evaluations, each with local variable names never seen before
+        vec![format!("FRESHLOCALS {}", n)]
+    } else if kind == "delayforce" {
+        // R7RS 4.2.5: a chain of delay-force promises is forced iteratively, in constant space
+        vec![format!("(set! sink (force (dfloop {})))", n), "(length live)".to_string()]
     } else {
         vec![format!("(let loop ((i 0)) (if (< i {}) (begin {} (loop (+ i 1))) 'done))", n, body), "(length live)".to_string()]
     };
@@ -229,6 +249,14 @@ fn run_garbage(kind: &str, live: usize, n: usize, every: u64, maxev: usize) -> R
             let cnt: usize = cnt.parse().unwrap();
             for i in 0..cnt {
                 ok &= eval_one(&mut s, &format!("(set! sink (+ {} (length (list 1 2 3))))", i % 1000));
+                if s.dead {
+                    break;
+                }
+            }
+        } else if let Some(cnt) = t.strip_prefix("FRESHLOCALS ") {
+            let cnt: usize = cnt.parse().unwrap();
+            for i in 0..cnt {
+                ok &= eval_one(&mut s, &format!("(set! sink ((lambda (zz-a{i} zz-b{i}) (+ zz-a{i} ((lambda (zz-c{i}) zz-c{i}) zz-b{i}))) 1 2))", i = i));
                 if s.dead {
                     break;
                 }
